@@ -4,7 +4,7 @@ From RW Require Import Base.Bytes Base.BytesFacts Fmt.Codec Fmt.CodecFacts Fmt.F
   Wal.CrashInv Wal.CrashFacts0 Wal.CrashFacts1 Wal.CrashFacts2 Wal.CrashFacts3 Wal.CrashFacts4 Wal.CrashFacts5
   Wal.CrashFacts6 Wal.CrashGlue Wal.CrashCalls1 Wal.CrashCalls2 Wal.CrashCalls3 Wal.CrashCalls4 Wal.CrashCalls5 Wal.CrashCalls6
   Wal.CrashCalls7 Wal.CrashCalls8 Wal.CrashCalls9 Wal.CrashCalls10 Wal.FaultSim Wal.FaultSim2 Wal.FaultInv Wal.FaultFacts2
-  Wal.FaultFacts3 Wal.FaultStore Wal.FaultDelete Wal.FaultSteps Wal.FaultSeal Gen.Constants.
+  Wal.FaultFacts3 Wal.FaultNames Wal.FaultStore Wal.FaultDelete Wal.FaultSteps Wal.FaultSeal Gen.Constants.
 From Coq Require Import ZifyN ZifyNat ZifyBool.
 Open Scope N_scope.
 
@@ -21,7 +21,7 @@ Proof. destruct o; cbn; try apply incl_refl. intros x Hx; right; exact Hx. Qed.
 
 Lemma RV_mono c nb nb' w d nom : nb <= nb' -> RV c nb w d nom -> RV c nb' w d nom.
 Proof.
-  intros Hn (wc & dc & o & HL & R). exists wc, dc, o. split; [eapply LInv_mono; eauto|exact R].
+  intros Hn (wc & dc & HL & R). exists wc, dc. split; [eapply LInv_mono; eauto|exact R].
 Qed.
 
 Lemma Mode_mono c nb nb' w d nom defer defer' : nb <= nb' -> incl defer defer' ->
@@ -198,15 +198,15 @@ Lemma observed_Mode c nb w e nom defer : Mode c nb w (e_disk e) nom defer -> st_
   observed {| ss_wal := w; ss_env := e |} = nom.
 Proof. intros HM Hcl. eapply observed_RV. eapply Mode_RV; eauto. Qed.
 
-Lemma with_fault_disk s f : e_disk (ss_env (with_fault s f)) = e_disk (ss_env s) /\ ss_wal (with_fault s f) = ss_wal s.
+Lemma with_fault_disk s f fx : e_disk (ss_env (with_fault s f fx)) = e_disk (ss_env s) /\ ss_wal (with_fault s f fx) = ss_wal s.
 Proof. split; reflexivity. Qed.
 
 (* ------------------------------------------------------------------ *)
 (* one step of a history                                                *)
-Lemma reopen_step c nb h f (HcOK : cfg_ok c) : nb + 2 < two64 -> FInv c nb h ->
+Lemma reopen_step c nb h f fx (HcOK : cfg_ok c) : nb + 2 < two64 -> FInv c nb h ->
   let s_in := {| ss_wal := ss_wal (fs_s h);
                  ss_env := {| e_acts := e_acts (ss_env (fs_s h)); e_disk := adopt_disk (e_disk (ss_env (fs_s h)));
-                              e_fault := f; e_m := e_m (ss_env (fs_s h)) |} |} in
+                              e_fault := f; e_fx := fx; e_m := e_m (ss_env (fs_s h)) |} |} in
   exists r s1, step_model c s_in OReopen = (r, s1) /\
     ((r = ROk /\ st_closed (ss_wal s1) = false /\
       LInv c (nb + 1) (ss_wal s1) (sh (e_disk (ss_env s1))) /\ no_pend (e_disk (ss_env s1)) /\
@@ -216,20 +216,20 @@ Lemma reopen_step c nb h f (HcOK : cfg_ok c) : nb + 2 < two64 -> FInv c nb h ->
       RD c (nb + 1) (e_disk (ss_env s1)) (fs_alts h) (fs_defer h))).
 Proof.
   intros Hnb (Hok & Hf & Hgn & Hin & Hga & Hdo & HRD & HM) s_in. cbn [step_model s_in ss_env ss_wal].
-  destruct (reopen_ok c nb _ (fs_alts h) (fs_defer h) (e_acts (ss_env (fs_s h))) f (e_m (ss_env (fs_s h))) HcOK ltac:(lia) HRD)
+  destruct (reopen_ok c nb _ (fs_alts h) (fs_defer h) (e_acts (ss_env (fs_s h))) f fx (e_m (ss_env (fs_s h))) HcOK ltac:(lia) HRD)
     as (res & e' & Ho & Hcase). rewrite Ho.
-  destruct Hcase as [(w' & -> & HL & HN & Hsp & Hfe)|(Hfn & (x & -> & Hx) & Hfe & HRD')].
+  destruct Hcase as [(w' & -> & HL & HN & Hsp & Hfe)|(Hfn & (x & -> & Hx) & HRD')].
   - eexists _, _. split; [reflexivity|]. left. cbn [ss_wal ss_env]. split; [reflexivity|].
     split; [apply (LInv_closed _ _ _ _ HL)|]. split; [exact HL|]. split; [exact HN|]. split; [rewrite Hsp; apply HRD|exact Hfe].
   - eexists _, _. split; [reflexivity|]. right. cbn [ss_wal ss_env close st_closed st_rotate]. auto.
 Qed.
 
-Lemma observed_wf s f : observed (with_fault s f) = observed s.
+Lemma observed_wf s f fx : observed (with_fault s f fx) = observed s.
 Proof. reflexivity. Qed.
 
-Definition fop_run (c : cfg) (h : fstate) (f : option nat) (o : sop) : fstate :=
-  let '(r, s1) := step_model c (with_fault (fs_s h) f) o in
-  let s' := with_fault s1 None in
+Definition fop_run (c : cfg) (h : fstate) (f : option nat) (fx : fxmode) (o : sop) : fstate :=
+  let '(r, s1) := step_model c (with_fault (fs_s h) f fx) o in
+  let s' := with_fault s1 None fx_none in
   if st_closed (ss_wal (fs_s h)) then
     {| fs_s := s'; fs_nom := fs_nom h; fs_alts := fs_alts h; fs_defer := fs_defer h;
        fs_ok := fs_ok h && negb (result_eqb (res_class r) ROk) |}
@@ -251,16 +251,16 @@ Definition fop_run (c : cfg) (h : fstate) (f : option nat) (o : sop) : fstate :=
     {| fs_s := s'; fs_nom := fs_nom h; fs_alts := fs_alts h; fs_defer := fs_defer h;
        fs_ok := fs_ok h && result_eqb (res_class r) r' |}.
 
-Lemma fstep_run_other c h f o : o <> OReopen -> fstep_run c h (FOp f o) = fop_run c h f o.
+Lemma fstep_run_other c h f fx o : o <> OReopen -> fstep_run c h (FOp f fx o) = fop_run c h f fx o.
 Proof. intros Hne. destruct o; try congruence; reflexivity. Qed.
 
-Lemma fop_step c nb h f o : cfg_ok c -> sop_ok o -> o <> OReopen -> nb + 2 < two64 -> FInv c nb h ->
-  FInv c (nb + 2) (fop_run c h f o).
+Lemma fop_step c nb h f fx o : cfg_ok c -> sop_ok o -> o <> OReopen -> nb + 2 < two64 -> FInv c nb h ->
+  FInv c (nb + 2) (fop_run c h f fx o).
 Proof.
   intros Hc Hop Hne Hnb (Hok & Hf & Hgn & Hin & Hga & Hdo & HRD & HM). unfold fop_run.
   destruct (fs_s h) as [w e] eqn:Es. cbn [ss_wal ss_env] in *.
-  set (ef := {| e_acts := e_acts e; e_disk := e_disk e; e_fault := f; e_m := e_m e |}).
-  change (with_fault {| ss_wal := w; ss_env := e |} f) with {| ss_wal := w; ss_env := ef |}.
+  set (ef := {| e_acts := e_acts e; e_disk := e_disk e; e_fault := f; e_fx := fx; e_m := e_m e |}).
+  change (with_fault {| ss_wal := w; ss_env := e |} f fx) with {| ss_wal := w; ss_env := ef |}.
   destruct (st_closed w) eqn:Hcl.
   - (* no WAL: every call fails *)
     assert (Hr : st_rotate w = None) by (destruct HM as [(_ & K)|(K & _)]; [exact K|congruence]).
@@ -280,12 +280,12 @@ Proof.
         split; [eapply accepts_good; eauto|]. split; [left; reflexivity|].
         split; [constructor; [eapply accepts_good; eauto|apply app_op_good; assumption]|]. split; [exact Hdo|]. split; [exact HRD'|exact HM'].
       * assert (Ebr : forall (X : fstate), match r with ROk => X | _ =>
-                   {| fs_s := with_fault {| ss_wal := w'; ss_env := e' |} None; fs_nom := fs_nom h;
+                   {| fs_s := with_fault {| ss_wal := w'; ss_env := e' |} None fx_none; fs_nom := fs_nom h;
                       fs_alts := fs_alts h ++ app_op o (fs_alts h); fs_defer := dfr o (fs_defer h);
-                      fs_ok := fs_ok h && spst_eqb (observed (with_fault {| ss_wal := w'; ss_env := e' |} None)) (fs_nom h) |} end =
-                   {| fs_s := with_fault {| ss_wal := w'; ss_env := e' |} None; fs_nom := fs_nom h;
+                      fs_ok := fs_ok h && spst_eqb (observed (with_fault {| ss_wal := w'; ss_env := e' |} None fx_none)) (fs_nom h) |} end =
+                   {| fs_s := with_fault {| ss_wal := w'; ss_env := e' |} None fx_none; fs_nom := fs_nom h;
                       fs_alts := fs_alts h ++ app_op o (fs_alts h); fs_defer := dfr o (fs_defer h);
-                      fs_ok := fs_ok h && spst_eqb (observed (with_fault {| ss_wal := w'; ss_env := e' |} None)) (fs_nom h) |}).
+                      fs_ok := fs_ok h && spst_eqb (observed (with_fault {| ss_wal := w'; ss_env := e' |} None fx_none)) (fs_nom h) |}).
         { intros X. destruct r; try reflexivity. congruence. }
         rewrite Ebr. unfold FInv. rewrite observed_wf. cbn [fs_ok fs_s fs_nom fs_alts fs_defer with_fault ss_env ss_wal e_fault e_disk].
         rewrite (observed_Mode c (nb + 2) w' _ (fs_nom h) (dfr o (fs_defer h))); [|exact HM'|exact Hcl'].
@@ -327,26 +327,26 @@ Qed.
 
 Lemma FInv_step c nb h st : cfg_ok c -> fstep_wf st -> nb + 2 < two64 -> FInv c nb h -> FInv c (nb + 2) (fstep_run c h st).
 Proof.
-  intros Hc Hwf Hnb HI. destruct st as [f o|].
+  intros Hc Hwf Hnb HI. destruct st as [f fx o|].
   - destruct o as [ls|mn mx|i| | |k v n|k|] eqn:Eo;
       try (rewrite fstep_run_other by discriminate; apply fop_step; auto; discriminate).
     (* Close; Open *)
     cbn [fstep_run].
-    destruct (reopen_step c nb h None Hc Hnb HI) as (r0 & s0 & _ & _). clear r0 s0.
+    
     pose proof HI as (Hok & Hf & Hgn & Hin & Hga & Hdo & HRD & HM).
-    match goal with |- context [step_model c (with_fault ?si f) OReopen] => 
-      change (with_fault si f) with {| ss_wal := ss_wal (fs_s h);
+    match goal with |- context [step_model c (with_fault ?si f fx) OReopen] => 
+      change (with_fault si f fx) with {| ss_wal := ss_wal (fs_s h);
                  ss_env := {| e_acts := e_acts (ss_env (fs_s h)); e_disk := adopt_disk (e_disk (ss_env (fs_s h)));
-                              e_fault := f; e_m := e_m (ss_env (fs_s h)) |} |} end.
-    destruct (reopen_step c nb h f Hc Hnb HI) as (r & s1 & Hst & Hcase). cbv zeta in Hst. rewrite Hst.
+                              e_fault := f; e_fx := fx; e_m := e_m (ss_env (fs_s h)) |} |} end.
+    destruct (reopen_step c nb h f fx Hc Hnb HI) as (r & s1 & Hst & Hcase). cbv zeta in Hst. rewrite Hst.
     destruct Hcase as [(-> & Hcl & HL & HN & Hcand & _)|(Hr & Hfn & Hcl & Hrot & HRD')].
     + destruct s1 as [w1 e1]. cbn [ss_wal ss_env] in *.
       rewrite observed_wf, (observed_clean c (nb + 1) w1 e1 HL HN), (matches_in _ _ Hcand).
-      apply (FInv_after_open c nb h (with_fault {| ss_wal := w1; ss_env := e1 |} None) _ Hnb HI Hcl HL HN eq_refl Hcand eq_refl).
+      apply (FInv_after_open c nb h (with_fault {| ss_wal := w1; ss_env := e1 |} None fx_none) _ Hnb HI Hcl HL HN eq_refl Hcand eq_refl).
     + assert (Ebr : forall (X : fstate), match r with ROk => X | _ =>
-                 {| fs_s := with_fault s1 None; fs_nom := fs_nom h; fs_alts := fs_alts h; fs_defer := fs_defer h;
+                 {| fs_s := with_fault s1 None fx_none; fs_nom := fs_nom h; fs_alts := fs_alts h; fs_defer := fs_defer h;
                     fs_ok := fs_ok h && match f with Some _ => true | None => false end |} end =
-                 {| fs_s := with_fault s1 None; fs_nom := fs_nom h; fs_alts := fs_alts h; fs_defer := fs_defer h;
+                 {| fs_s := with_fault s1 None fx_none; fs_nom := fs_nom h; fs_alts := fs_alts h; fs_defer := fs_defer h;
                     fs_ok := fs_ok h && match f with Some _ => true | None => false end |}).
       { intros X. destruct r; try reflexivity. congruence. }
       rewrite Ebr. unfold FInv. cbn [fs_ok fs_s fs_nom fs_alts fs_defer with_fault ss_env ss_wal e_fault e_disk].
@@ -355,7 +355,7 @@ Proof.
       split; [eapply RD_mono; [| | |exact HRD']; [lia|apply incl_refl|apply incl_refl]|]. left. auto.
   - (* restart *)
     cbn [fstep_run]. pose proof HI as (Hok & Hf & Hgn & Hin & Hga & Hdo & HRD & HM).
-    destruct (reopen_step c nb h None Hc Hnb HI) as (r & s1 & Hst & Hcase). cbv zeta in Hst. rewrite Hst.
+    destruct (reopen_step c nb h None fx_none Hc Hnb HI) as (r & s1 & Hst & Hcase). cbv zeta in Hst. rewrite Hst.
     destruct Hcase as [(-> & Hcl & HL & HN & Hcand & Hfe)|(_ & Hfn & _)]; [|congruence].
     destruct s1 as [w1 e1]. cbn [ss_wal ss_env] in *.
     rewrite (observed_clean c (nb + 1) w1 e1 HL HN), (matches_in _ _ Hcand).
